@@ -24,6 +24,6 @@ def config(T):
         "C18": dict(pkg="c18", fuzz=[dict(name="FuzzArgs", secs=45), dict(name="FuzzArgsNegative", secs=30)], tests=[T("TestArgs", 24000, 400000, sq=6, st=16), T("TestArgsNegative", 12000, 100000, sq=4, st=8)]),
         "C19": dict(pkg="c19", fuzz=[dict(name="FuzzDirectives", secs=45)], tests=[T("TestPinned"), T("TestDirectives", 12000, 160000, sq=8, st=16), T("TestDirectivesGateway", 240, 4000, sq=6, st=8, pkg="c06")]),
         "C20": dict(pkg="c20", tests=[T("TestPinned"), T("TestLimiter", 480, 24000, sq=8, st=16, race=True), T("TestNestedWith", 480, 6400, sq=4, st=8), T("TestBatchJoiners", 640, 9600, sq=4, st=8, race=True)]),
-        "C04": dict(pkg="c04", tests=[T("TestRerun", 7200, 96000, sq=8, st=16, race=True)]),
+        "C04": dict(pkg="c04", tests=[T("TestRerun", 7200, 96000, sq=8, st=16, race=True), T("TestArmRace", 2400, 40000, sq=4, st=8)]),
         "C05": dict(pkg="c05", tests=[T("TestBatch", 6000, 64000, sq=8, st=16, race=True)]),
     }
